@@ -141,6 +141,10 @@ func c01probes() []c01probe {
 	add("C01-map-key-bool-or-float-gen-fails", pdesign(nil, nil, &m.Method{Name: "m",
 		Payload: rt.Obj(rt.Fld("flags", &m.Attr{Type: &m.Type{Kind: m.Map, Key: m.Prim(m.Boolean), Val: m.Prim(m.Int64)}}, false)),
 		HTTP:    &m.HTTPEndpoint{Routes: route("POST", "/m")}}))
+	add("C01-map-with-object-key-does-not-compile", pdesign(
+		[]*m.UserType{{Name: "Key", Var: "v1", Attr: rt.Obj(rt.Fld("a", m.Prim(m.String), false))}}, nil,
+		&m.Method{Name: "m", Payload: rt.Obj(rt.Fld("index", &m.Attr{Type: &m.Type{Kind: m.Map, Key: m.UserRef("Key"), Val: m.Prim(m.String)}}, false)),
+			HTTP: &m.HTTPEndpoint{Routes: route("POST", "/m")}}))
 	{
 		a := m.Prim(m.String)
 		a.V = &m.Validation{MinLen: intp(2)}
